@@ -279,6 +279,26 @@ static void run_c03() {
             for (int a = 0; a < 3; ++a) { rx::AstPool ap; int root = ap.leaf(a); ctr["C03.hex_spelling_patterns"]++; check_pattern(ap, atoms, root); }
         }
     }
+    // set composition: members of a set in every order - singles, ranges, adjacent ranges, overlapping ranges, a single inside an earlier range, hex-escaped ends;
+    // all ordered selections of up to 4 of 8 components, plain and inverted
+    {
+        struct Comp { const char* text; int lo, hi; };
+        static const Comp comps[] = {{"a", 'a', 'a'}, {"c-e", 'c', 'e'}, {"e-g", 'e', 'g'}, {"b", 'b', 'b'}, {"f", 'f', 'f'}, {"h-j", 'h', 'j'}, {"\\x41-\\x43", 0x41, 0x43}, {"z", 'z', 'z'}};
+        std::vector<int> pick;
+        std::function<void()> rec = [&]() {
+            if (!pick.empty()) {
+                if ((idx++ % cfg.nshards) == cfg.shard && !deadline_hit) {
+                    std::string body; rx::CharSet cs; for (int k : pick) { body += comps[k].text; for (int c = comps[k].lo; c <= comps[k].hi; ++c) cs.set(c); }
+                    std::vector<rx::Atom> atoms = {rx::Atom{"[" + body + "]", cs}, rx::Atom{"[^" + body + "]", ~cs}, rx::Atom{"q", cs_of({'q'})}};
+                    for (int a = 0; a < 2; ++a) { rx::AstPool ap; int root = ap.leaf(a); ctr["C03.set_composition_patterns"]++; check_pattern(ap, atoms, root); }
+                    { rx::AstPool ap; int root = ap.bin(rx::CAT, ap.un(rx::REP, ap.leaf(0), 2), ap.leaf(2)); check_pattern(ap, atoms, root); }
+                }
+            }
+            if (pick.size() == 4) return;
+            for (int k = 0; k < 8; ++k) { if (std::find(pick.begin(), pick.end(), k) != pick.end()) continue; pick.push_back(k); rec(); pick.pop_back(); }
+        };
+        rec();
+    }
     // "Single char": every printable character that is not a metacharacter stands for itself, alone, in a set, as a range end (0x20 .. 0x7e)
     for (int c = 0x20; c < 0x7f; ++c) {
         if (std::strchr("\\|()[]{}*+?.-^", c)) continue;
@@ -300,7 +320,7 @@ static void run_c03() {
     // one-dimensional sweep (not exhaustive): repetition counts of two, three and four digits, on shapes outside the known merge defect
     {
         const Pool& P = pools.back();   // atoms a, b, c
-        for (int n : {13, 20, 64, 99, 100, 101, 123, 128, 200, 255, 256, 257, 300, 512, 999, 1000}) {
+        for (int n : {4, 5, 6, 7, 8, 9, 11, 13, 20, 64, 99, 100, 101, 123, 128, 200, 255, 256, 257, 300, 512, 999, 1000}) {
             for (int shape = 0; shape < 6; ++shape) {
                 if ((idx++ % cfg.nshards) != cfg.shard || deadline_hit) continue;
                 rx::AstPool ap; int a = ap.leaf(0), b = ap.leaf(1), c = ap.leaf(2); int root = -1;
